@@ -1,5 +1,6 @@
 SPECIFICATION Spec
 CONSTANTS
+  Tiny = FALSE
   WithOrders = FALSE
   SampleMod = 40
 INVARIANTS MergeMatchesUnion ValidAreAccepted RowsIndependent ExportInv
